@@ -390,6 +390,7 @@ def c10(ctx, e):
     done_at = {}   # context id -> stream index of its SUCCEED/FAIL
     first_seen = {}
     parent_of = {}
+    late = []      # (stream index, update, completed ancestor)
     for k, u in enumerate(st):
         first_seen.setdefault(u["id"], k)
         if u["parent"]:
@@ -397,13 +398,30 @@ def c10(ctx, e):
         anc = parent_of.get(u["id"])
         while anc:
             if anc in done_at and done_at[anc] < k:
-                sig = "orphan-first-time-op" if first_seen[u["id"]] > done_at[anc] else "orphan-known-op-update"
-                ctx.violation(sig, f"update {u['action']} for {u['name']} ({u['type']}) accepted at position {k} although its ancestor "
-                                   f"{id2path.get(anc, anc[:8])} completed at position {done_at[anc]} (invocation {u['inv']})", scen_of(e))
-                return
+                late.append((k, u, anc))
+                break
             anc = parent_of.get(anc)
         if u["type"] == "CONTEXT" and u["action"] in ("SUCCEED", "FAIL") and u["id"] not in done_at:
             done_at[u["id"]] = k
+    if not late:
+        return
+    # The orphan check and the enqueue of create_checkpoint are not atomic (known, unrepaired): ONE update per surviving branch can
+    # slip behind the parent's completion record.  More than one late update from the same branch means the branch was not stopped.
+    per_branch = {}
+    for k, u, anc in late:
+        # the branch = the child of the completed ancestor on the path to this update
+        cur = u["id"]
+        while parent_of.get(cur) and parent_of[cur] != anc:
+            cur = parent_of[cur]
+        per_branch.setdefault((anc, cur), []).append((k, u))
+    for (anc, br), lst in per_branch.items():
+        k, u = lst[0]
+        sig = "orphan-known-op-update" if len(lst) == 1 else "orphan-first-time-op"
+        ctx.violation(sig, f"{len(lst)} update(s) under {id2path.get(anc, anc[:8])} accepted after its completion record (position "
+                           f"{done_at[anc]}): first {u['action']} for {u['name']} ({u['type']}) at position {k}, invocation {u['inv']}",
+                      scen_of(e))
+        if sig != "orphan-known-op-update":
+            return
 
 
 def c08(ctx, e):
